@@ -1,6 +1,7 @@
 """C14 - concurrent compilation and matching behave as if run one at a time (deterministic scheduler)."""
 from __future__ import annotations
 
+import os
 import sys
 import time
 import warnings
@@ -10,7 +11,7 @@ import soupsieve as sv
 from engine import choose, common, htmldoc, sched, trees
 
 ID = 'C14'
-BUDGET = {'quick': 55, 'thorough': 1200}
+BUDGET = {'quick': 70, 'thorough': 1200}
 META = {
     'rule': 'real threads under a deterministic scheduler (engine/sched.py): every line event (thorough: every opcode '
             'in css_parser.py) inside soupsieve frames is a yield point; exactly one thread runs at a time, so a run is '
@@ -20,7 +21,9 @@ META = {
             'resumes; (ii) Hypothesis-drawn cyclic burst schedules and PCT priority schedules with <= 3 change points '
             'over 2-4 threads and mixed compile/purge/select/match/filter/closest operations on shared and private '
             'documents, including operations at the interpreter\'s limits (a 4400-digit An+B coefficient that must be a '
-            'syntax error, range matching on 4400-digit years), for which all single pre-emptions are enumerated too. Oracle: every operation\'s outcome (selector structure / selected positions / exception type) '
+            'syntax error, range matching on 4400-digit years), for which all single pre-emptions are enumerated too, and '
+            'operations that are guaranteed to miss soupsieve\'s memos (a never-seen attribute name) while the memo of '
+            'lower-cased names is filled to capacity by a warm-up, enumerated at opcode granularity inside util.py. Oracle: every operation\'s outcome (selector structure / selected positions / exception type) '
             'equals its outcome when run alone on a purged cache; afterwards every pattern\'s cached entry equals a '
             'fresh parse (or the same error), the cache is within its bound and the interpreter-wide int-digit and recursion limits are what they were. Non-trivial: >= 1 context switch happened at a yield point '
             'inside soupsieve while another thread still had soupsieve work to do; distinct by (operations, schedule)',
@@ -44,6 +47,11 @@ LIMIT_MARKUP = ('<form><input id="a" type="month" min="' + HUGE_YEAR + '-01" val
                 '<input id="b" type="date" max="' + HUGE_YEAR + '-01-01" value="' + HUGE_YEAR + '9-01-01">'
                 '<input id="c" type="week" min="2000-W01" value="' + HUGE_YEAR + '-W02"></form>')
 LIMIT_SELECTORS = [':in-range', ':out-of-range', 'input:not(:in-range)']
+# memo at capacity: soupsieve memoises lower-cased names (512 entries, never purged); eviction only happens when the memo
+# is full, so a warm-up through the public API fills it before operations that are guaranteed to miss it
+WARM_N = 560
+_warm = [False]
+_fresh = [0]
 _doc = [None]
 
 
@@ -51,6 +59,29 @@ def witness():
     if _doc[0] is None:
         _doc[0] = trees.materialise(htmldoc.WITNESS_RECIPE)
     return _doc[0]
+
+
+def warm_up():
+    """Fill the pattern cache and the name memo to capacity (once per process; public API only)."""
+    if not _warm[0]:
+        for i in range(WARM_N):
+            sv.compile(f'[ZZ-FILL-{i}]')
+        _warm[0] = True
+
+
+def fresh_name():
+    _fresh[0] += 1
+    return f'QQ-{os.getpid()}-{_fresh[0]}'
+
+
+_small = [None]
+
+
+def small_doc():
+    if _small[0] is None:
+        import bs4 as _bs4
+        _small[0] = _bs4.BeautifulSoup('<div id="0"><a id="1" href="u">x</a><p id="2" class="k">y</p></div>', 'html.parser')
+    return _small[0]
 
 
 def compile_(p):
@@ -70,6 +101,12 @@ def make_op(op, private_docs):
         return f
     if kind == 'purge':
         return lambda: ('purged', sv.purge())
+    if kind == 'select-fresh':
+        # an attribute name never seen in this process: a guaranteed miss in every name/pattern memo.  The answer does
+        # not depend on the name (no element carries it), so it is comparable between runs.
+        text = p.replace('{fresh}', fresh_name())
+        soup = small_doc()
+        return lambda: ('select-fresh', [x.get('id') for x in sv.select(text, soup)])
     if kind == 'select-limits':
         import bs4 as _bs4
         soup = _bs4.BeautifulSoup(LIMIT_MARKUP, 'html.parser')
@@ -135,8 +172,10 @@ def run_case(case, opcode=False):
         schedule = sched.Priorities(sc['prios'], sc['changes'])
     settings_before = interpreter_settings()
     sv.purge()
+    if case.get('warm'):
+        warm_up()
     runner = sched.Runner([[make_op(o, private) for o in ops] for ops in case['threads']], schedule,
-                          opcode_files=('css_parser.py',) if opcode else ())
+                          opcode_files=tuple(case.get('opcode_files') or (('css_parser.py',) if opcode else ())))
     try:
         with warnings.catch_warnings():
             warnings.simplefilter('ignore')
@@ -154,7 +193,7 @@ def run_case(case, opcode=False):
                                  f'{exp[1] if exp[0] == "raise" else ""}; threads {[[(o["op"], (o.get("p") or "")[:60]) for o in t] for t in case["threads"]]} '
                                  f'schedule {sc}'))
     # nothing wrong left behind in the cache
-    pats = sorted({o['p'] for ops in case['threads'] for o in ops if o.get('p')})
+    pats = sorted({o['p'] for ops in case['threads'] for o in ops if o.get('p') and '{fresh}' not in o['p']})
     def outcome(p):
         try:
             return ('ok', compile_(p))
@@ -217,7 +256,81 @@ def run_single_preemptions(col, ctx, pool, opcode):
     pairs = [(a, b) for a in pool for b in pool]
     idx = 0
     complete = True
-    for a, b in pairs:
+    # cheap, special-purpose enumerations first (a few seconds), the big pool of pairs last
+    if complete:
+        lim = [{'op': 'select-limits', 'p': q} for q in LIMIT_SELECTORS[:2]] + [{'op': 'compile', 'p': HUGE_NTH, 'purge': True}]
+        for opa in lim:
+            npts, _res = sched.count_yield_points(make_op(dict(opa, tid=0), [None]))
+            for opb in lim:
+                for point in range(1, npts + 2):
+                    idx += 1
+                    if idx % nsh != k:
+                        continue
+                    if time.time() > ctx['t_end']:
+                        col.extra['budget_exhausted'] = 1
+                        complete = False
+                        break
+                    case = {'threads': [[dict(opa)], [dict(opb)]], 'schedule': {'kind': 'single', 'point': point},
+                            'opcode': False}
+                    fails, st = run_case(case, False)
+                    col.count()
+                    if st['switches'] >= 1:
+                        col.classify('single-limits')
+                        col.nontrivial_case(['single-limits', opa['op'], opa['p'][:20], opb['op'], opb['p'][:20], point], None)
+                    for bkt, d in fails[:2]:
+                        col.fail(bkt, case, d)
+    if complete:
+        # both memos full, both threads guaranteed to miss them; opcode granularity inside util.py (the name memo)
+        for ta, tb in (('a, [{fresh}]', 'p, [{fresh}]'), ('[{fresh}=x]', 'a, [{fresh}]')):
+            opa = {'op': 'select-fresh', 'p': ta}
+            opb = {'op': 'select-fresh', 'p': tb}
+            warm_up()
+            npts, _res = sched.count_yield_points(make_op(dict(opa, tid=0), [None]), ('util.py',))
+            for point in range(1, npts + 2):
+                idx += 1
+                if idx % nsh != k:
+                    continue
+                if time.time() > ctx['t_end']:
+                    col.extra['budget_exhausted'] = 1
+                    complete = False
+                    break
+                case = {'threads': [[dict(opa)], [dict(opb)]], 'schedule': {'kind': 'single', 'point': point},
+                        'opcode': False, 'opcode_files': ['util.py'], 'warm': True}
+                fails, st = run_case(case, False)
+                col.count()
+                if st['switches'] >= 1:
+                    col.classify('single-caches-at-capacity')
+                    col.nontrivial_case(['single-capacity', ta, tb, point], None)
+                for bkt, d in fails[:2]:
+                    col.fail(bkt, case, d)
+            if not complete:
+                break
+    if complete:
+        for a in DETACHED_SELECTORS[:3]:
+            for b in DETACHED_SELECTORS[:3]:
+                opa = {'op': 'match-detached', 'p': a}
+                npts, _res = sched.count_yield_points(make_op(dict(opa, tid=0), [None]))
+                for point in range(1, npts + 2):
+                    idx += 1
+                    if idx % nsh != k:
+                        continue
+                    if time.time() > ctx['t_end']:
+                        col.extra['budget_exhausted'] = 1
+                        complete = False
+                        break
+                    case = {'threads': [[dict(opa)], [{'op': 'match-detached', 'p': b}]],
+                            'schedule': {'kind': 'single', 'point': point}, 'opcode': False}
+                    fails, st = run_case(case, False)
+                    col.count()
+                    if st['switches'] >= 1:
+                        col.nontrivial_case(['single-detached', a, b, point], None)
+                    for bkt, d in fails[:2]:
+                        col.fail(bkt, case, d)
+    if not complete:
+        pairs_to_run = []
+    else:
+        pairs_to_run = pairs
+    for a, b in pairs_to_run:
         opa = {'op': 'compile', 'p': a, 'purge': True}
         npts, _res = sched.count_yield_points(make_op(dict(opa, tid=0), [None]),
                                               ('css_parser.py',) if opcode else ())
@@ -241,49 +354,6 @@ def run_single_preemptions(col, ctx, pool, opcode):
                 col.fail(bkt, case, d)
         if not complete:
             break
-    if complete:
-        for a in DETACHED_SELECTORS[:3]:
-            for b in DETACHED_SELECTORS[:3]:
-                opa = {'op': 'match-detached', 'p': a}
-                npts, _res = sched.count_yield_points(make_op(dict(opa, tid=0), [None]))
-                for point in range(1, npts + 2):
-                    idx += 1
-                    if idx % nsh != k:
-                        continue
-                    if time.time() > ctx['t_end']:
-                        col.extra['budget_exhausted'] = 1
-                        complete = False
-                        break
-                    case = {'threads': [[dict(opa)], [{'op': 'match-detached', 'p': b}]],
-                            'schedule': {'kind': 'single', 'point': point}, 'opcode': False}
-                    fails, st = run_case(case, False)
-                    col.count()
-                    if st['switches'] >= 1:
-                        col.nontrivial_case(['single-detached', a, b, point], None)
-                    for bkt, d in fails[:2]:
-                        col.fail(bkt, case, d)
-    if complete:
-        lim = [{'op': 'select-limits', 'p': q} for q in LIMIT_SELECTORS[:2]] + [{'op': 'compile', 'p': HUGE_NTH, 'purge': True}]
-        for opa in lim:
-            npts, _res = sched.count_yield_points(make_op(dict(opa, tid=0), [None]))
-            for opb in lim:
-                for point in range(1, npts + 2):
-                    idx += 1
-                    if idx % nsh != k:
-                        continue
-                    if time.time() > ctx['t_end']:
-                        col.extra['budget_exhausted'] = 1
-                        complete = False
-                        break
-                    case = {'threads': [[dict(opa)], [dict(opb)]], 'schedule': {'kind': 'single', 'point': point},
-                            'opcode': False}
-                    fails, st = run_case(case, False)
-                    col.count()
-                    if st['switches'] >= 1:
-                        col.classify('single-limits')
-                        col.nontrivial_case(['single-limits', opa['op'], opa['p'][:20], opb['op'], opb['p'][:20], point], None)
-                    for bkt, d in fails[:2]:
-                        col.fail(bkt, case, d)
     col.extra['single_preemption_complete'] = int(complete)
     col.extra['pairs'] = len(pairs) if k == 0 else 0
 
@@ -338,6 +408,8 @@ def gen_mixed(ch, pool):
             elif r == 6:
                 ops.append({'op': 'select-limits', 'p': ch.pick(LIMIT_SELECTORS)} if ch.p(0.5) else
                            {'op': 'compile', 'p': HUGE_NTH, 'purge': ch.p(0.5)})
+            elif r == 7 and ch.p(0.4):
+                ops.append({'op': 'select-fresh', 'p': ch.pick(('a, [{fresh}]', '[{fresh}=x], p', ':not([{fresh}])'))})
             else:
                 ops.append({'op': ch.pick(('select', 'match', 'filter', 'closest')), 'p': p,
                             'doc': ch.pick(('shared', 'private')), 'target': ch.i(-1, 30)})
@@ -348,7 +420,11 @@ def gen_mixed(ch, pool):
     else:
         sc = {'kind': 'pct', 'prios': [ch.i(0, 9) for _ in range(nthreads)],
               'changes': [ch.i(1, 1500) for _ in range(ch.i(0, 3))]}
-    return {'threads': threads, 'schedule': sc}
+    case = {'threads': threads, 'schedule': sc}
+    if any(o['op'] == 'select-fresh' for t in threads for o in t):
+        case['warm'] = True
+        case['opcode_files'] = ['util.py']
+    return case
 
 
 def shard(ctx):
